@@ -30,7 +30,12 @@ RULE = ("nesting shapes = all compositions up to depth D of the frame kinds K (3
         "run): the hook raises error(\"*verif fault k\") [pass 2: throw(({1,\"t\"}))] at dispatch k; part 'sites': 16 genuine error sites "
         "(error(), throw(), division by zero, index out of bounds, bad operand, call_other on 0, efun bad argument, sprintf error, "
         "index error inside foreach, too deep recursion, eval cost, stack overflow, load of a missing / non-compiling file, "
-        "destruct(this_object()) then error, error between a varargs spread and its call) as the leaf of every shape; one process per element")
+        "destruct(this_object()) then error, error between a varargs spread and its call) as the leaf of every shape; master behaviour "
+        "dimension: error_handler() = plain log | evaluates catch(error(...)) and a successful catch before it logs; part 'api': the driver's "
+        "own entry points called from C as backend/comm/call_out do -- safe_apply, apply, safe_call_function_pointer, call_function_pointer, "
+        "apply_master_ob, safe_apply_master_ob x target {live, destructed just before / funptr whose owner is destructed} x {function "
+        "exists, missing, functional funptr} x fault at EVERY dispatch k of the called function (20 scenarios, 231 elements), each followed "
+        "by the snapshot comparison (incl. depth of the error-context chain) and the probe; one process per element")
 
 ASSUME = ["driver-style entry = save_context/setjmp/restore_context/pop_context around apply(), as backend() and call_out() do",
           "num_objects_this_thread is not compared for the 32 shapes whose fault-free run already changes it (clone_object() inside a "
@@ -46,8 +51,12 @@ def fix_replays(ck):
     for key, info in ck.fails.items():
         desc = (info["record"].get("desc") or "")
         first = desc.split("\n", 1)[0]
+        keep = [x for x in info["args"] if x.startswith("--master=")]
         if first.startswith("elem="):
-            info["args"] = ["--" + first]
+            info["args"] = ["--" + first] + keep
+            info["fail"]["index"] = 0
+        elif first.startswith("api="):
+            info["args"] = ["--part=api", "--" + first] + keep
             info["fail"]["index"] = 0
 
 
@@ -74,7 +83,15 @@ def run(ck):
         ck.enum(p, ["--depth=1", "--kinds=all", "--mode=throw"], "d1-all-throw", batch=64, deadline_s=40, jobs=J, timeout_ms=400000)
         ck.enum(p, ["--depth=1", "--kinds=all", "--part=sites"], "d1-sites", batch=64, deadline_s=40, jobs=J, timeout_ms=400000)
         ck.enum(a, ["--depth=1", "--kinds=all", "--mode=error"], "asan-d1-all-error", batch=32, deadline_s=60, jobs=J, timeout_ms=400000)
+        ck.enum(p, ["--depth=1", "--kinds=all", "--mode=error", "--master=catch"], "d1-all-error-master-uses-catch", batch=64, deadline_s=40, jobs=J, timeout_ms=400000)
+        ck.enum(p, ["--part=api"], "api", batch=16, deadline_s=30, jobs=J, timeout_ms=400000)
+        ck.enum(a, ["--part=api", "--master=catch"], "asan-api-master-uses-catch", batch=16, deadline_s=30, jobs=J, timeout_ms=400000)
     else:
+        ck.enum(p, ["--depth=2", "--kinds=core", "--mode=error", "--master=catch"], "d2-core-error-master-uses-catch", batch=64, deadline_s=200, jobs=J, timeout_ms=400000)
+        ck.enum(p, ["--depth=1", "--kinds=all", "--part=sites", "--master=catch"], "d1-sites-master-uses-catch", batch=64, deadline_s=60, jobs=J, timeout_ms=400000)
+        ck.enum(p, ["--part=api"], "api", batch=16, deadline_s=30, jobs=J, timeout_ms=400000)
+        ck.enum(p, ["--part=api", "--master=catch"], "api-master-uses-catch", batch=16, deadline_s=30, jobs=J, timeout_ms=400000)
+        ck.enum(a, ["--part=api"], "asan-api", batch=16, deadline_s=30, jobs=J, timeout_ms=400000)
         ck.enum(p, ["--depth=2", "--kinds=all", "--mode=error"], "d2-all-error", batch=64, deadline_s=420, jobs=J, timeout_ms=400000)
         ck.enum(p, ["--depth=2", "--kinds=all", "--mode=throw"], "d2-all-throw", batch=64, deadline_s=420, jobs=J, timeout_ms=400000)
         ck.enum(p, ["--depth=3", "--kinds=mini", "--mode=error"], "d3-mini-error", batch=64, deadline_s=300, jobs=J, timeout_ms=400000)
@@ -97,11 +114,13 @@ def run(ck):
 def selftest(ck):
     """break the observation (not the repo): each oracle must fire with its own key"""
     ex = build(ck)
-    want = {1: "C05:sp-not-restored:driver-entry:fault-uncaught", 2: "C05:command_giver-not-restored:catch-point", 3: "C05:probe:"}
+    want = {1: "C05:sp-not-restored:driver-entry:fault-uncaught", 2: "C05:command_giver-not-restored:catch-point", 3: "C05:probe:",
+            4: "C05:error_context_chain-not-restored:api:"}
     bad = 0
     for st, sub in want.items():
         ck2 = vlib.Check("C05", "quick", 0, LEVEL)
-        ck2.enum(ex["h_c05p"], ["--depth=1", "--kinds=call,catch,call_other", "--mode=error", "--selftest=%d" % st], "selftest%d" % st, batch=64, jobs=JOBS)
+        a2 = ["--part=api"] if st == 4 else ["--depth=1", "--kinds=call,catch,call_other", "--mode=error"]
+        ck2.enum(ex["h_c05p"], a2 + ["--selftest=%d" % st], "selftest%d" % st, batch=64, jobs=JOBS)
         hit = [k for k in ck2.fails if sub in k]
         if ck2.broken or not hit:
             print("SELFTEST-FAILED C05 variant %d: no key containing %r (%s)" % (st, sub, ck2.broken or sorted(ck2.fails)[:5])); bad = 1
